@@ -81,6 +81,9 @@ def roundTripOp : List String → Option String
     let seen := parseWhole .request (requestBytes r)
     if seen == "unspecified" then pure "unspecified" else
     pure s!"wire[{wire}] seen[{seen}] client=ok"
+  | ["rtreq", meth, pathS, qS, hS, cS, bodyS, _cookieAttrs] =>
+    -- attributes of the client-side Cookie objects are never sent: the request is the same
+    roundTripOp ["rtreq", meth, pathS, qS, hS, cS, bodyS]
   | ["rtresp", maxS, mode, codeS, hs, cs, chunksS, flushes, _kinds, _v10] => do
     let max ← maxS.toNat?
     let code ← codeS.toNat?
